@@ -71,3 +71,9 @@ Print Assumptions C18_nsname_parse_sound.
 Theorem C18_nsname_parse_accepts_iff : forall s, (exists n, ns_parse s = Some n) <-> slashes s = 1.
 Proof. exact parse_accepts_iff. Qed.
 Print Assumptions C18_nsname_parse_accepts_iff.
+
+Theorem C18_nsname_string_injective : forall a b a' b',
+  no_slash a -> no_slash b -> no_slash a' -> no_slash b' ->
+  ns_string (a, b) = ns_string (a', b') -> (a, b) = (a', b').
+Proof. exact ns_string_injective. Qed.
+Print Assumptions C18_nsname_string_injective.
